@@ -125,9 +125,32 @@ func c05Source(p c05Params) string {
 	return sb.String()
 }
 
+// c05Wired: two CPs joined by two handshaked links whose output and input indices differ, every order of
+// declaring the endpoints; straight-line programs that park in a self-loop.
+func c05Wired(rsize, s0, d0 int, inputFirst bool, a, b int) string {
+	s1, d1 := 1-s0, 1-d0
+	var sb strings.Builder
+	fmt.Fprintf(&sb, "%%section psrc .romtext\n        entry _start\n_start:\n        mov r0, %d\n        mov r1, %d\n        i2rw r2, i0\n        add r0, r2\n", a, b)
+	fmt.Fprintf(&sb, "        r2owa r0, o%d\n        r2owa r1, o%d\n_e:\n        j _e\n%%endsection\n", s0, s1)
+	fmt.Fprintf(&sb, "%%section pdst .romtext\n        entry _start\n_start:\n        i2rw r0, i%d\n        i2rw r1, i%d\n        add r0, r0\n        add r0, r1\n        r2owa r0, o0\n_e:\n        j _e\n%%endsection\n", d0, d1)
+	sb.WriteString("%meta cpdef src romcode: psrc, execmode: ha\n%meta cpdef dst romcode: pdst, execmode: ha\n")
+	pair := func(name, e1, e2 string) {
+		if inputFirst {
+			e1, e2 = e2, e1
+		}
+		fmt.Fprintf(&sb, "%%meta ioatt %s %s\n%%meta ioatt %s %s\n", name, e1, name, e2)
+	}
+	pair("ext0", "cp: bm, index:0, type:input", "cp: src, index:0, type:input")
+	pair("la", fmt.Sprintf("cp: src, index:%d, type:output", s0), fmt.Sprintf("cp: dst, index:%d, type:input", d0))
+	pair("lb", fmt.Sprintf("cp: src, index:%d, type:output", s1), fmt.Sprintf("cp: dst, index:%d, type:input", d1))
+	pair("res", "cp: dst, index:0, type:output", "cp: bm, index:0, type:output")
+	fmt.Fprintf(&sb, "%%meta bmdef global registersize:%d\n", rsize)
+	return sb.String()
+}
+
 func C05(tier string) int {
 	t0 := time.Now()
-	h := Harness{File: "c05.go", Pkg: "pkg/bondmachine"}
+	h := Harness{File: "c05.go", Extra: []string{"lib_emitted.go"}, Pkg: "pkg/bondmachine"}
 	n := 36
 	if tier == "thorough" {
 		n = 240
@@ -190,6 +213,33 @@ func C05(tier string) int {
 		cfgs = append(cfgs, Config{Name: name, Func: "zzC05", Setup: func(in *symgo.Interp) { in.MaxUnwind = 400 },
 			Args: []Arg{I(p.rsize), S(strings.Join(cps, ";")), S(inLine), S(outLine), S(linkLine), S(text), I(T)}})
 	}
+	// second family: two CPs wired by links with differing indices
+	wired := 0
+	for s0 := 0; s0 <= 1 && len(errs) == 0; s0++ {
+		for d0 := 0; d0 <= 1; d0++ {
+			for _, inputFirst := range []bool{false, true} {
+				rsize := []int{8, 16}[(s0+d0)%2]
+				text := c05Wired(rsize, s0, d0, inputFirst, 3+wired, 17+2*wired)
+				f := filepath.Join(work, fmt.Sprintf("w%d.basm", wired))
+				os.WriteFile(f, []byte(text), 0o644)
+				out, err := Native("basm", f)
+				name := fmt.Sprintf("two CPs: src o%d->dst i%d, src o%d->dst i%d, consuming endpoint declared first=%v, Rsize=%d", s0, d0, 1-s0, 1-d0, inputFirst, rsize)
+				wired++
+				if err != nil {
+					errs = append(errs, name+": "+err.Error())
+					continue
+				}
+				if k := strings.Index(out, "BASM-ERROR"); k >= 0 {
+					rejected++
+					rejections = append(rejections, name+": "+strings.SplitN(out[k:], "\n", 2)[0])
+					continue
+				}
+				cps, inLine, outLine, linkLine := parseEmitted(out)
+				cfgs = append(cfgs, Config{Name: name, Func: "zzC05Multi", Setup: func(in *symgo.Interp) { in.MaxUnwind = 400 },
+					Args: []Arg{I(rsize), S(strings.Join(cps, ";")), S(inLine), S(outLine), S(linkLine), S(text), I(60)}})
+			}
+		}
+	}
 	if rejected*2 > n {
 		errs = append(errs, fmt.Sprintf("the front-end rejected %d of %d generated sources: the source family no longer matches the assembler's input language", rejected, n))
 	}
@@ -203,6 +253,7 @@ func C05(tier string) int {
 			"source family: one CP; romtext section; labels on their own lines (2-4 plus the entry label, several labels may share a line); entry directive; forward/backward j and jz; 0-2 macros without arguments, invoked 0 or more times; mov with decimal/0x/0b/0d literals below 32 (larger ones are rejected since the chooser takes rsets5), mov register-register, inc/dec/add/clr/nop, i2r/r2o; register sizes 8 and 16; 2-4 registers, 0-2 inputs, 1-2 outputs; one source in six has its entry label on a later instruction, one in twelve has two macro calls in a row",
 			"reference: the documented meaning of the source form (a label denotes the instruction after it; execution starts at the entry label; a macro call stands for its body; mov loads the value the literal denotes or copies a register; one instruction per tick); the per-instruction effect is the ISA's (inc/dec/add wrap at the register size)",
 			"environment: external inputs constant and valid from tick 0, outputs acknowledged at once; horizon 2*lines+6 ticks from reset (registers zero)",
+			"second family: two CPs joined by two handshaked links whose output and input indices differ (all four index pairings, consuming endpoint declared first or second), straight-line programs that park in a self-loop, one symbolic external input; compared at the horizon (60 ticks) with a reference in which every CP's source is interpreted on its own and a link carries the value its producer wrote to its consumer: registers of both CPs and the external output",
 			"sources the front-end rejects with an error are counted, not failed (a well-formed source that is refused does not mean something else); data sections, ramtext, templates, fragments (C06), several CPs, shared objects and call/ret are outside",
 		},
 		Bounds: map[string]interface{}{"sources": n, "rejected_by_the_front_end": rejected, "rejections": rejections, "ticks": "2*lines+6", "register_sizes": []int{8, 16}},
@@ -221,4 +272,27 @@ func C05(tier string) int {
 	}
 	_ = t0
 	return code
+}
+
+// parseEmitted reads the description cmd/bmnative prints for an emitted machine.
+func parseEmitted(out string) (cps []string, inLine, outLine, linkLine string) {
+	for _, line := range strings.Split(out, "\n") {
+		switch {
+		case strings.HasPrefix(line, "IN "):
+			inLine = strings.TrimPrefix(line, "IN ")
+		case strings.HasPrefix(line, "OUT "):
+			outLine = strings.TrimPrefix(line, "OUT ")
+		case strings.HasPrefix(line, "LINKS "):
+			linkLine = strings.Trim(strings.TrimPrefix(line, "LINKS "), "[]")
+		case strings.HasPrefix(line, "CP "):
+			kv := map[string]string{}
+			for _, f := range strings.Fields(line)[2:] {
+				if j := strings.IndexByte(f, '='); j > 0 {
+					kv[f[:j]] = f[j+1:]
+				}
+			}
+			cps = append(cps, fmt.Sprintf("%s:%s:%s:%s:%s:%s|%s|%s|%s", kv["R"], kv["N"], kv["M"], kv["L"], kv["O"], kv["wordsize"], kv["ops"], kv["rom"], kv["name"]))
+		}
+	}
+	return
 }
